@@ -2219,7 +2219,10 @@ def unravel_index(indices, shape, order="C"):
             )
         )
     else:
-        unraveled_indices = tuple(empty((0,), dtype=np.intp, chunks=1) for i in shape)
+        # no index to unravel: one empty array of the shape of `indices` per dimension
+        unraveled_indices = tuple(
+            empty(indices.shape, dtype=np.intp, chunks=indices.chunks) for i in shape
+        )
 
     return unraveled_indices
 
